@@ -149,4 +149,69 @@ theorem inv_mutatePaths (c : Cfg) (ms : List Mutation) : ∀ (fs : FS), FS.Inv f
     rw [seqM_cons]
     exact inv_andThen _ _ (inv_mutateOne c fs m hi) ih
 
+/-- a successful `Link(old, new)` -/
+theorem link_ok {c : Cfg} {fs fs' : FS} {o n : Text} (h : act c fs (.link o n) = (fs', none)) :
+    ∃ pi t, getNode c fs (dir n) = .ok pi ∧ (fs.node pi).dir = true ∧ getNode c fs o = .ok t ∧
+      fs.lookup pi (base n) = none ∧
+      fs' = (fs.link pi (base n) t).modify t fun nd => { nd with nlink := nd.nlink + 1 } := by
+  simp only [act, step, linkOp, parentOf] at h
+  cases hg : getNode c fs (dir n) with
+  | error e => simp [hg, errOf] at h
+  | ok pi =>
+    simp only [hg] at h
+    by_cases hd : (fs.node pi).dir = true
+    · simp only [hd, Bool.not_true, Bool.false_eq_true, if_false] at h
+      cases ho : getNode c fs o with
+      | error e => simp [ho, errOf] at h
+      | ok t =>
+        simp only [ho] at h
+        cases hl : fs.lookup pi (base n) with
+        | some x => simp [hl, errOf] at h
+        | none =>
+          simp only [hl, Option.isSome_none, Bool.false_eq_true, if_false, Prod.mk.injEq] at h
+          refine ⟨pi, t, rfl, hd, rfl, hl, ?_⟩
+          rw [← h.1]
+    · simp [hd, errOf] at h
+
+/-- entering an existing node under a free name extends the graph -/
+theorem ext_link {fs : FS} (pi t : Ino) (b : Name) (hd : (fs.node pi).dir = true)
+    (hfree : fs.lookup pi b = none) :
+    Ext fs ((fs.link pi b t).modify t fun nd => { nd with nlink := nd.nlink + 1 }) ∧
+    ((fs.link pi b t).modify t fun nd => { nd with nlink := nd.nlink + 1 }).lookup pi b = some t := by
+  have hpl := dir_lt fs pi hd
+  -- the nodes of the new state
+  have proj : ∀ {α : Type} (g : Inode → α) (x : FS) (i : Ino) (f : Inode → Inode), (∀ n, g (f n) = g n) →
+      ∀ j, g ((x.modify i f).node j) = g (x.node j) := by
+    intro α g x i f hf j
+    rw [node_modify]; split
+    · rename_i h; rw [h.1]; exact hf _
+    · rfl
+  have hnode : ∀ j, (((fs.link pi b t).modify t fun nd => { nd with nlink := nd.nlink + 1 }).node j).dir = (fs.node j).dir ∧
+      (((fs.link pi b t).modify t fun nd => { nd with nlink := nd.nlink + 1 }).node j).isSymlink = (fs.node j).isSymlink ∧
+      (((fs.link pi b t).modify t fun nd => { nd with nlink := nd.nlink + 1 }).node j).target = (fs.node j).target ∧
+      (((fs.link pi b t).modify t fun nd => { nd with nlink := nd.nlink + 1 }).node j).children =
+        (if j = pi then setChild (fs.node pi).children b t else (fs.node j).children) := by
+    intro j
+    refine ⟨?_, ?_, ?_, ?_⟩
+    · exact (proj (·.dir) (fs.link pi b t) t (fun nd => { nd with nlink := nd.nlink + 1 }) (fun n => rfl) j).trans
+        (proj (·.dir) fs pi (fun nd => { nd with children := setChild nd.children b t }) (fun n => rfl) j)
+    · exact (proj (·.isSymlink) (fs.link pi b t) t (fun nd => { nd with nlink := nd.nlink + 1 }) (fun n => rfl) j).trans
+        (proj (·.isSymlink) fs pi (fun nd => { nd with children := setChild nd.children b t }) (fun n => rfl) j)
+    · exact (proj (·.target) (fs.link pi b t) t (fun nd => { nd with nlink := nd.nlink + 1 }) (fun n => rfl) j).trans
+        (proj (·.target) fs pi (fun nd => { nd with children := setChild nd.children b t }) (fun n => rfl) j)
+    · rw [show _ = _ from proj (·.children) (fs.link pi b t) t (fun nd => { nd with nlink := nd.nlink + 1 }) (fun n => rfl) j]
+      simp only [FS.link, node_modify]
+      by_cases hj : j = pi
+      · subst hj; simp [hpl]
+      · simp [hj]
+  refine ⟨⟨fun i h => by rw [(hnode i).1]; exact h, ?_, fun d n j _ _ => ⟨(hnode j).2.1, (hnode j).2.2.1, (hnode j).1⟩⟩, ?_⟩
+  · intro d n j _ hl
+    simp only [FS.lookup, (hnode d).2.2.2] at hl ⊢
+    by_cases hdp : d = pi
+    · subst hdp
+      have hnb : n ≠ b := by intro h; subst h; simp only [FS.lookup] at hfree; rw [hfree] at hl; cases hl
+      simp only [if_true]; rw [lookup_setChild_ne _ _ _ _ hnb]; exact hl
+    · simp only [hdp, if_false]; exact hl
+  · simp only [FS.lookup, (hnode pi).2.2.2, if_true]; exact lookup_setChild_self _ _ _
+
 end Apko.Accounts
